@@ -1,0 +1,6 @@
+//go:build !verif
+// +build !verif
+
+package zap
+
+func verifPoll(closeCh chan struct{}) {}
